@@ -258,7 +258,9 @@ void harness (void)
                   vg_init[0].image == &src && vg_init[2].image == &dest && (vg_init[1].image == NULL || vg_init[1].image == &mask));
         VH_CHECK ("rect.mask_dropped_only_if_absent_or_source_ignored",
                   vg_init[1].image != NULL || !in_have_mask ||
-                  (in_op == PIXMAN_OP_CLEAR || in_op == PIXMAN_OP_DST));
+                  /* the operators whose equations do not mention the source (Fa == 0): CLEAR and DST in their three families */
+                  (in_op == PIXMAN_OP_CLEAR || in_op == PIXMAN_OP_DST || in_op == PIXMAN_OP_DISJOINT_CLEAR || in_op == PIXMAN_OP_DISJOINT_DST ||
+                   in_op == PIXMAN_OP_CONJOINT_CLEAR || in_op == PIXMAN_OP_CONJOINT_DST));
         VH_CHECK ("rect.same_width_class_everywhere",
                   (vg_init[0].flags & (ITER_NARROW | ITER_WIDE)) == (narrow ? ITER_NARROW : ITER_WIDE) &&
                   (vg_init[1].flags & (ITER_NARROW | ITER_WIDE)) == (narrow ? ITER_NARROW : ITER_WIDE) &&
